@@ -37,8 +37,8 @@ MANIFEST_ENTRY = {
         "encoding is proved under C04. Trusted: Lean kernel, harness, driver, mp4walk, shims."),
     "technique": "Lean 4 proof (least-index characterisation, loop invariants, induction over the timeline loop) + model/implementation correspondence",
 }
-PROP_FILES = ["DashLive/Props/C02.lean", "DashLive/Props/GenTie.lean", "DashLive/Props/GenTieTimeline.lean", "DashLive/Props/GenTieLiveIndex.lean"]
-LEAN_TARGETS = ["DashLive.Props.C02", "DashLive.Props.GenTie", "DashLive.Props.GenTieTimeline", "DashLive.Props.GenTieLiveIndex"]
+PROP_FILES = ["DashLive/Props/C02.lean", "DashLive/Props/GenTie.lean", "DashLive/Props/GenTieTimeline.lean", "DashLive/Props/GenTieLiveIndex.lean", "DashLive/Props/Generated.lean"]
+LEAN_TARGETS = ["DashLive.Props.C02", "DashLive.Props.GenTie", "DashLive.Props.GenTieTimeline", "DashLive.Props.GenTieLiveIndex", "DashLive.Props.Generated"]
 
 
 def _gen_arith():
